@@ -233,7 +233,8 @@ impl Engine for SeqEngine {
                     18..=20 => Op::Cas {
                         key,
                         expect: if w.chance(3, 4) { Expect::Current } else { Expect::Other },
-                        val: gen_val(&mut w, &p, blocks_cap),
+                        // one swap in eight installs the value the key already holds
+                        val: if roll % 8 == 3 { Val { len: 0, kind: ValKind::Plain } } else { gen_val(&mut w, &p, blocks_cap) },
                         ts: gen_ts_for(&mut w, &p),
                         ttl: if w.chance(1, 8) { gen_ttl(&mut w) } else { 0 },
                     },
@@ -246,7 +247,7 @@ impl Engine for SeqEngine {
                     24 | 25 => Op::InsertIfAbsent { key, val: gen_val(&mut w, &p, blocks_cap) },
                     26 | 27 => Op::JsonPatch {
                         key,
-                        patch: w.pick(&[Patch::ReplaceN, Patch::AddField, Patch::RemovePad, Patch::TestWrong, Patch::Garbage]).clone(),
+                        patch: w.pick(&[Patch::ReplaceN, Patch::AddField, Patch::RemovePad, Patch::TestWrong, Patch::Garbage, Patch::NoOp, Patch::NoOp]).clone(),
                         ts: gen_ts_for(&mut w, &p),
                     },
                     28 => Op::BadInsert { which: w.below(6) as u8 },
